@@ -1170,3 +1170,112 @@ Proof.
       * apply IH; auto. intros Hin. apply Hnq. right. exact Hin.
     + intros f. rewrite rowF_app, (Pref f (fst st)) by (auto; lia). unfold rowF. cbn [map sumR fst snd]. lra.
 Qed.
+
+(* ------------------------------------------------------------------ the whole split pipeline: reg_split_from then the matrix *)
+Lemma res_all_map_ok {A B} (F : A -> res B) (Rl : A -> B -> Prop) l :
+  (forall a, In a l -> exists b, F a = Ok b /\ Rl a b) -> exists bs, @res_all B (map F l) = Ok bs /\ Forall2 Rl l bs.
+Proof.
+  induction l as [|a l IH]; intros H; [exists []; split; [reflexivity|constructor]|].
+  destruct (H a (or_introl eq_refl)) as [b [Eb Rb]]. destruct IH as [bs [Ebs Rbs]]; [intros; apply H; right; assumption|].
+  exists (b :: bs). split; [|constructor; assumption]. cbn [map res_all]. rewrite Eb, Ebs. reflexivity.
+Qed.
+Lemma all_some_map_ok {A B C} (G : B -> option C) (Rl : A -> B -> Prop) (S : A -> C -> Prop) l bs :
+  Forall2 Rl l bs -> (forall a b, Rl a b -> exists c, G b = Some c /\ S a c) -> exists cs, all_some (map G bs) = Some cs /\ Forall2 S l cs.
+Proof.
+  induction 1 as [|a b l bs Hab HF IH]; intros H; [exists []; split; [reflexivity|constructor]|].
+  destruct (H a b Hab) as [c [Ec Sc]]. destruct (IH H) as [cs [Ecs Scs]].
+  exists (c :: cs). split; [|constructor; assumption]. cbn [map all_some]. rewrite Ec, Ecs. reflexivity.
+Qed.
+Lemma Forall2_nth_rel {A B} (S : A -> B -> Prop) l cs : Forall2 S l cs ->
+  length l = length cs /\ forall k d1 d2, (k < length l)%nat -> S (nth k l d1) (nth k cs d2).
+Proof.
+  induction 1 as [|a c l cs Hac HF [IL IN]]; [split; [reflexivity|intros; cbn in *; lia]|].
+  split; [cbn; lia|]. intros [|k] d1 d2 Hk; cbn [nth]; [exact Hac|]. apply IN. cbn in Hk. lia.
+Qed.
+Lemma nth_indexed {A} (l : list A) k d : (k < length l)%nat -> nth k (indexed l) (0%nat, d) = (k, nth k l d).
+Proof. intros H. unfold indexed. rewrite combine_nth by (rewrite seq_length; reflexivity). rewrite seq_nth by exact H. reflexivity. Qed.
+Lemma indexed_length {A} (l : list A) : length (indexed l) = length l.
+Proof. unfold indexed. rewrite combine_length, seq_length. lia. Qed.
+
+Lemma cross_residual_R x k row : @cross_residual ROps x k row = xh x (k / 4) - rowF (xh x) row.
+Proof. unfold cross_residual. rewrite sumT_sumR. reflexivity. Qed.
+Lemma qf_split_lower eps w prows0 x : eps * @norm2 ROps x <= @qf_split ROps eps w prows0 x.
+Proof.
+  unfold qf_split. rewrite sumT_sumR. cbn [add mul ROps].
+  match goal with |- _ <= ?c + _ => assert (0 <= c) end.
+  { apply sumR_map_nonneg. intros [k row]. cbn [fst snd]. rewrite nthT_map_sq. unfold sq. cbn [mul ROps].
+    apply Rmult_le_pos; apply Rle_0_sqr. }
+  tr. lra.
+Qed.
+
+Definition split_dflt : list Z * nat * list R := ([], 0%nat, []).
+Lemma split_pipeline eps (w : list R) width (rows : list (list Z * nat * list R)) : split_rows_ok width rows = true ->
+  exists rows' H, @reg_split ROps width rows = Ok rows' /\ @split_matrix ROps eps w rows' = Ok H
+    /\ square_n (length rows / 4) H /\ symmetric_n (length rows / 4) H
+    /\ forall x, length x = (length rows / 4)%nat -> @quad ROps H x = @qf_split ROps eps w (map prow0 rows) x.
+Proof.
+  intros Hok. unfold split_rows_ok in Hok. apply andb_true_iff in Hok. destruct Hok as [H4 Hrows]. apply Nat.eqb_eq in H4.
+  rewrite forallb_forall in Hrows. set (P := (length rows / 4)%nat) in *.
+  set (Q := fun (kr : nat * (list Z * nat * list R)) (prow' : list (nat * R)) =>
+              Forall (fun mw : nat * R => (fst mw < P)%nat) prow' /\ NoDup (map fst prow')
+              /\ forall f, rowF f prow' = f (fst kr / 4)%nat - rowF f (prow0 (snd kr))).
+  destruct (res_all_map_ok (fun ir => @reg_split_row ROps (Z.of_nat (fst ir / 4)) (width - 1) (snd ir))
+              (fun kr r' => exists prow', @prep_split_row ROps P r' = Some prow' /\ Q kr prow') (indexed rows)) as [rows' [Er HF]].
+  { intros [k [[mp size] wr]] Hin. apply in_indexed in Hin. destruct Hin as [Hk Hin]. cbn [fst snd].
+    assert (Hq : (k / 4 < P)%nat) by (apply Nat.div_lt_upper_bound; [lia | rewrite <- H4; exact Hk]).
+    destruct (reg_split_row_spec P (width - 1) (k / 4) mp size wr (Hrows _ Hin) Hq) as [r' [prow' [E1 [E2 [E3 [E4 E5]]]]]].
+    exists r'. split; [exact E1|]. exists prow'. split; [exact E2|]. unfold Q. cbn [fst snd]. auto. }
+  destruct (all_some_map_ok (@prep_split_row ROps P) _ Q _ _ HF) as [prows' [Ep HQ]].
+  { intros a b [c [E1 E2]]. exists c. auto. }
+  destruct (Forall2_nth_rel _ _ _ HF) as [L1 _]. destruct (Forall2_nth_rel _ _ _ HQ) as [L2 NQ].
+  rewrite indexed_length in L1, L2, NQ.
+  assert (LP : (length prows' / 4)%nat = P) by (unfold P; rewrite <- L2; reflexivity).
+  assert (HI : prows_inr (length prows' / 4) prows').
+  { rewrite LP. apply Forall_forall. intros row Hr. destruct (In_nth prows' row [] Hr) as [k [Hk Ek]].
+    specialize (NQ k (0%nat, split_dflt) [] ltac:(lia)). rewrite Ek in NQ. destruct NQ as [A [B _]]. auto. }
+  exists rows', (@split_matrix_prepared ROps eps w prows'). split; [exact Er|]. split.
+  { unfold split_matrix. rewrite <- L1.
+    match goal with |- match ?a with _ => _ end = _ => replace a with (Some prows') by (symmetry; exact Ep) end. reflexivity. }
+  split; [rewrite <- LP; apply T_split_size|]. split.
+  { rewrite <- LP. unfold symmetric_n. apply split_prepared_symmetric. exact HI. }
+  assert (S1 : length prows' = (4 * (length prows' / 4))%nat) by (rewrite LP, <- L2; exact H4).
+  intros x HX. assert (S3 : length x = (length prows' / 4)%nat) by (rewrite LP; exact HX).
+  rewrite split_prepared_quadratic; [| exact S1 | exact HI | exact S3].
+  unfold qf_split_prepared, qf_split. rewrite !sumT_sumR. cbn [add mul ROps]. f_equal.
+  etransitivity; [apply (sum_indexed_nth (fun k row => @nthT ROps (map (@sq ROps) w) (k / 4) * @sq ROps (@row_dot ROps x row)) prows' [])|].
+  etransitivity; [|symmetry; apply (sum_indexed_nth (fun k row => @nthT ROps (map (@sq ROps) w) (k / 4) * @sq ROps (@cross_residual ROps x k row)) (map prow0 rows) [])].
+  rewrite map_length, <- L2. apply sumR_map_ext. intros k Hk. apply in_seq in Hk. f_equal.
+  specialize (NQ k (0%nat, split_dflt) [] ltac:(lia)). rewrite nth_indexed in NQ by lia. destruct NQ as [_ [_ NQ]]. cbn [fst snd] in NQ.
+  rewrite row_dot_R, cross_residual_R, (NQ (xh x)).
+  change [] with (prow0 split_dflt) at 1. rewrite (map_nth (@prow0 R)). reflexivity.
+Qed.
+Lemma T_split_pipeline eps (w : list R) width (rows : list (list Z * nat * list R)) : split_rows_ok width rows = true ->
+  exists rows' H, @reg_split ROps width rows = Ok rows' /\ @split_matrix ROps eps w rows' = Ok H
+    /\ square_n (length rows / 4) H /\ symmetric_n (length rows / 4) H
+    /\ (forall x, length x = (length rows / 4)%nat -> @quad ROps H x = @qf_split ROps eps w (map prow0 rows) x)
+    /\ (0 < eps -> forall x, length x = (length rows / 4)%nat -> nonzero x -> 0 < @quad ROps H x).
+Proof.
+  intros Hok. destruct (split_pipeline eps w width rows Hok) as [rows' [H [E1 [E2 [E3 [E4 E5]]]]]].
+  exists rows', H. repeat (split; [assumption|]). intros He x HX Hx. rewrite E5 by exact HX.
+  pose proof (qf_split_lower eps w (map prow0 rows) x). pose proof (norm2_pos x Hx). pose proof (Rmult_lt_0_compat _ _ He H1). lra.
+Qed.
+Lemma qf_split_meaning eps w (prows0 : list (list (nat * R))) x :
+  @qf_split ROps eps w prows0 x =
+  sumR (map (fun kr => nth (fst kr / 4) w 0 * nth (fst kr / 4) w 0
+                       * ((nth (fst kr / 4) x 0 - sumR (map (fun mw => snd mw * nth (fst mw) x 0) (snd kr)))
+                          * (nth (fst kr / 4) x 0 - sumR (map (fun mw => snd mw * nth (fst mw) x 0) (snd kr)))))
+            (indexed prows0))
+  + eps * sumR (map (fun v => v * v) x).
+Proof.
+  unfold qf_split. rewrite sumT_sumR, norm2_R. cbn [add mul ROps]. f_equal.
+  apply sumR_map_ext. intros [k row] _. cbn [fst snd]. rewrite nthT_map_sq, cross_residual_R. reflexivity.
+Qed.
+Lemma T_reg_split_row P max_j q mp size (w : list R) : split_row_ok P max_j (mp, size, w) = true -> (q < P)%nat ->
+  exists r' prow', @reg_split_row ROps (Z.of_nat q) max_j (mp, size, w) = Ok r' /\ @prep_split_row ROps P r' = Some prow'
+    /\ Forall (fun mw : nat * R => (fst mw < P)%nat) prow' /\ NoDup (map fst prow')
+    /\ forall x : list R, sumR (map (fun mw => snd mw * nth (fst mw) x 0) prow')
+                          = nth q x 0 - sumR (map (fun mw => snd mw * nth (fst mw) x 0) (prow0 (mp, size, w))).
+Proof.
+  intros H Hq. destruct (reg_split_row_spec P max_j q mp size w H Hq) as [r' [prow' [E1 [E2 [E3 [E4 E5]]]]]].
+  exists r', prow'. repeat (split; [assumption|]). intros x. apply (E5 (xh x)).
+Qed.
